@@ -70,7 +70,7 @@ func c08(c *ctx) {
 		{[]string{"import (\n fmt \"fmt\"\n strconv \"strconv\"\n)"}, " S fmt.Stringer\n E strconv.NumError"},
 		{[]string{`import os "os"`, `import b "bytes"`, `import bytes "bytes"`}, " F *os.File\n BB bytes.Buffer\n B2 b.Buffer"},
 	}
-	actions := []string{"p.N++", "v := p.N; p.N = v + 1", "v := 2; p.N += v", "p.N = (p.N + 5) % 7", "_ = fmt.Sprintf(\"%s/%d%%\", \"a\", p.N)", "/* a comment */ p.N++", "// a line comment\n p.N++", "s := \"*/\"; _ = s", "if true { p.N++ }", "r := `{}`; _ = r", "p.N += len(\"\\\"{}\")", "func() { p.N++ }()", ""}
+	actions := []string{"p.N++", "v := p.N; p.N = v + 1", "v := 2; p.N += v", "p.N = (p.N + 5) % 7", "_ = fmt.Sprintf(\"%s/%d%%\", \"a\", p.N)", "/* a comment */ p.N++", "// a line comment\n p.N++", "s := \"*/\"; _ = s", "if true { p.N++ }", "r := `{}`; _ = r", "p.N += len(\"\\\"{}\")", "func() { p.N++ }()", "", "p.N++ // a comment up to the closing brace", "// nothing but a comment"}
 	preds := []string{"true", "p.N >= 0 /* {} */", "len(\"*/\") == 2", "func() bool { return true }()", "!false && (true)",
 		// predicates written over several lines, ending in a newline, or carrying line comments
 		"\n  p.N >= 0\n", "p.N >= 0 // never negative\n", "p.N >= 0 && // first\n  true /* second */\n", "true // to the end of the text", "len(\"//\") == 2"}
@@ -116,7 +116,7 @@ func c08(c *ctx) {
 		hasCap := g.Count(gram.KCapture) > 0
 		ii := i
 		o := gram.PrintOpts{Type: []string{"P", "Peg", "my_Parser1"}[r.Intn(3)], Header: headers[r.Intn(len(headers))], Imports: is.lines,
-			State: " N int\n M map[string]struct{ a, b int }" + func() string {
+			State: []string{" N int\n M map[string]struct{ a, b int }", " // the state\n N int // a counter\n /* block */ M map[string]struct{ a, b int }"}[i%2] + func() string {
 				if is.state != "" {
 					return "\n" + is.state
 				}
